@@ -34,6 +34,7 @@ import (
 	"github.com/dominant-strategies/go-quai/core/state"
 	"github.com/dominant-strategies/go-quai/core/types"
 	"github.com/dominant-strategies/go-quai/core/vm"
+	"github.com/dominant-strategies/go-quai/crypto"
 	"github.com/dominant-strategies/go-quai/ethdb"
 	"github.com/dominant-strategies/go-quai/params"
 	"github.com/dominant-strategies/go-quai/rlp"
@@ -943,6 +944,39 @@ type c05TxCase struct {
 	ATerm  string `json:"a_term"` // stop revert
 	B      string `json:"b_items"`
 	BTerm  string `json:"b_term"` // stop revert invalid
+	// how A enters B's program: "" / "call" (CALL contract B), "delegatecall", "callcode" (B's code in
+	// A's context), "create" (B's program is the init code of a contract created by A with an endowment)
+	Via string `json:"via,omitempty"`
+}
+
+var c05Vias = []string{"call", "delegatecall", "callcode", "create"}
+
+var c05Endowment = new(big.Int).Mul(big.NewInt(4), new(big.Int).Add(params.MinQuaiConversionAmount, big.NewInt(1_000_000_000)))
+
+// c05ChildInit pads init (dead bytes after its terminating opcode) until the address the interpreter
+// derives for a contract created by A (nonce 1) is an in-zone Quai address, so that the creation does
+// not depend on address grinding.
+var c05ChildCache = map[string][]byte{}
+
+func c05ChildInit(init []byte) ([]byte, common.Address) {
+	code, ok := c05ChildCache[string(init)]
+	if !ok {
+		for n := 0; n < 1<<16; n++ {
+			code = append(append([]byte{}, init...), 0x00, byte(n>>8), byte(n))
+			if _, err := crypto.CreateAddress(c02A, 1, code, c02Loc).InternalAndQuaiAddress(); err == nil {
+				break
+			}
+		}
+		if len(c05ChildCache) > 4096 {
+			c05ChildCache = map[string][]byte{}
+		}
+		c05ChildCache[string(init)] = code
+	}
+	addr := crypto.CreateAddress(c02A, 1, code, c02Loc)
+	if _, err := addr.InternalAndQuaiAddress(); err != nil {
+		panic("harness: no in-zone child address found")
+	}
+	return code, addr
 }
 
 type c05TxOp struct {
@@ -957,7 +991,7 @@ type c05TxOp struct {
 
 const c05TxEtxGas = 21000
 
-func c05TxOpCode(a *c02Asm, o c05TxOp) {
+func c05TxOpCode(a *c02Asm, o c05TxOp, via string, codeB []byte) {
 	switch o.Kind {
 	case 'E', 'I':
 		// accessListSize, accessListOffset, inSize, inOffset, gasFeeCap, gasTipCap, etxGasLimit, value, addr, temp
@@ -982,7 +1016,17 @@ func c05TxOpCode(a *c02Asm, o c05TxOp) {
 		a.MStoreBytes(0, in)
 		a.Push(0).Push(0).Push(53).Push(0).Push(0).PushAddr(c02LK).Push(100_000).Op(vm.CALL)
 	case 'B':
-		a.Push(0).Push(0).Push(0).Push(0).Push(0).PushAddr(c02B).Push(2_000_000).Op(vm.CALL)
+		switch via {
+		case "delegatecall":
+			a.Push(0).Push(0).Push(0).Push(0).PushAddr(c02B).Push(2_000_000).Op(vm.DELEGATECALL)
+		case "callcode":
+			a.Push(0).Push(0).Push(0).Push(0).Push(0).PushAddr(c02B).Push(2_000_000).Op(vm.CALLCODE)
+		case "create":
+			a.MStoreBytes(0, codeB)
+			a.Push(uint64(len(codeB))).Push(0).PushBig(c05Endowment).Op(vm.CREATE)
+		default:
+			a.Push(0).Push(0).Push(0).Push(0).Push(0).PushAddr(c02B).Push(2_000_000).Op(vm.CALL)
+		}
 	}
 	a.Push(uint64(o.ID + 1)).Op(vm.SSTORE)
 }
@@ -1017,10 +1061,10 @@ func c05TxOps(items string, owner common.Address, base int) []c05TxOp {
 	return ops
 }
 
-func c05TxProgram(ops []c05TxOp, term string) []byte {
+func c05TxProgram(ops []c05TxOp, term string, via string, codeB []byte) []byte {
 	a := &c02Asm{}
 	for _, o := range ops {
-		c05TxOpCode(a, o)
+		c05TxOpCode(a, o, via, codeB)
 	}
 	switch term {
 	case "revert":
@@ -1038,9 +1082,22 @@ type c05Finding struct{ key, desc, outcome string }
 func c05TxRun(envs []*c02Env, t c05TxCase) []c05Finding {
 	env := c05EnvByName(envs, t.Regime)
 	opsA := c05TxOps(t.A, c02A, 0)
-	opsB := c05TxOps(t.B, c02B, 4)
-	codeA := c05TxProgram(opsA, t.ATerm)
-	codeB := c05TxProgram(opsB, t.BTerm)
+	// the frame that executes B's items: contract B, A itself (delegatecall / callcode), or the child
+	ownerB := c02B
+	switch t.Via {
+	case "delegatecall", "callcode":
+		ownerB = c02A
+	}
+	opsB := c05TxOps(t.B, ownerB, 4)
+	codeB := c05TxProgram(opsB, t.BTerm, "", nil)
+	child := common.Address{}
+	if t.Via == "create" {
+		codeB, child = c05ChildInit(codeB)
+		for i := range opsB {
+			opsB[i].Owner = child
+		}
+	}
+	codeA := c05TxProgram(opsA, t.ATerm, t.Via, codeB)
 	wrapped := big.NewInt(1000)
 	lk := c02Account{Addr: c02LK, Storage: map[common.Hash]common.Hash{c05WrappedKey(c02A): common.BigToHash(wrapped), c05WrappedKey(c02B): common.BigToHash(wrapped)}}
 	accts := []c02Account{
@@ -1059,6 +1116,9 @@ func c05TxRun(envs []*c02Env, t c05TxCase) []c05Finding {
 		return []c05Finding{{key: "harness", desc: err.Error()}}
 	}
 	al := types.AccessList{{Address: c02A}, {Address: c02B}, {Address: c02LK}, {Address: c02X}, {Address: c02X2}, {Address: c02Q}, {Address: c02N}}
+	if t.Via == "create" {
+		al = append(al, types.AccessTuple{Address: child})
+	}
 	to := c02A
 	msg := types.NewMessage(c02S, &to, 0, new(big.Int), 8_000_000, new(big.Int).Set(c02GasPrice), nil, al, false)
 	evm := vm.NewEVM(env.BlockCtx, vm.TxContext{}, st, env.Cfg, vm.Config{}, batch)
@@ -1066,6 +1126,9 @@ func c05TxRun(envs []*c02Env, t c05TxCase) []c05Finding {
 	rl, pl := uint64(1)<<60, uint64(1)<<60
 	tx := types.NewTx(&types.QuaiTx{})
 	balA0, balB0 := new(big.Int).Set(st.GetBalance(c02Int(c02A))), new(big.Int).Set(st.GetBalance(c02Int(c02B)))
+	if t.Via == "create" && st.GetBalance(c02Int(child)).Sign() != 0 {
+		return []c05Finding{{key: "harness", desc: "child address already funded"}}
+	}
 	var receipt *types.Receipt
 	var aerr error
 	if perr := vx.Guard(func() {
@@ -1092,8 +1155,8 @@ func c05TxRun(envs []*c02Env, t c05TxCase) []c05Finding {
 		return 1
 	}
 	var expect []c05TxOp
-	debit := map[common.Address]*big.Int{c02A: new(big.Int), c02B: new(big.Int)}
-	unwrapped := map[common.Address]*big.Int{c02A: new(big.Int), c02B: new(big.Int)}
+	debit := map[common.Address]*big.Int{c02A: new(big.Int), c02B: new(big.Int), child: new(big.Int)}
+	unwrapped := map[common.Address]*big.Int{c02A: new(big.Int), c02B: new(big.Int), child: new(big.Int)}
 	for _, o := range order { // programs contain at most one CALL B, so B's status slots are written once
 		if o.Kind == 'B' {
 			continue
@@ -1118,7 +1181,7 @@ func c05TxRun(envs []*c02Env, t c05TxCase) []c05Finding {
 		for _, o := range expect {
 			exp = append(exp, fmt.Sprintf("{%c by %s value=%s}", o.Kind, c02Name(o.Owner), o.Value))
 		}
-		return fmt.Sprintf("tx: %s\n case=%+v (items: E=ETX C=CONVERT K=CALL-out U=unwrap L=claim I=ETX-to-ineligible B=CALL B)\n receipt status=%d committed outbound set=%v\n operations whose status word 1 survived, in execution order=%v", what, t, receipt.Status, got, exp)
+		return fmt.Sprintf("tx: %s\n case=%+v (items: E=ETX C=CONVERT K=CALL-out U=unwrap L=claim I=ETX-to-ineligible B=enter B's program via CALL / DELEGATECALL / CALLCODE / CREATE)\n receipt status=%d committed outbound set=%v\n operations whose status word 1 survived, in execution order=%v", what, t, receipt.Status, got, exp)
 	}
 	var out []c05Finding
 	oc := fmt.Sprintf("status%d/etxs%d", receipt.Status, len(receipt.OutboundEtxs))
@@ -1142,21 +1205,30 @@ func c05TxRun(envs []*c02Env, t c05TxCase) []c05Finding {
 			b0 = balB0
 		}
 		got := new(big.Int).Sub(b0, st.GetBalance(c02Int(who)))
-		if got.Cmp(debit[who]) != 0 {
+		want := new(big.Int).Set(debit[who])
+		if who == c02A && t.Via == "create" {
+			// the endowment moves between A and its child: the pair is debited what its operations paid
+			got.Sub(got, st.GetBalance(c02Int(child)))
+			want.Add(want, debit[child])
+		}
+		if got.Cmp(want) != 0 {
 			key := "tx:debit-differs-from-successful-operations"
 			if strings.ContainsRune(t.A+t.B, 'I') {
 				key = "tx:opETX:ineligible-destination"
 			}
-			out = append(out, c05Finding{key: key, desc: desc(fmt.Sprintf("%s was debited %s, the successful operations account for %s", c02Name(who), got, debit[who]))})
+			out = append(out, c05Finding{key: key, desc: desc(fmt.Sprintf("%s was debited %s, the successful operations account for %s", c02Name(who), got, want))})
 		}
 		wgot := new(big.Int).Sub(wrapped, st.GetState(c02Int(c02LK), c05WrappedKey(who)).Big())
 		if wgot.Cmp(unwrapped[who]) != 0 {
 			out = append(out, c05Finding{key: "tx:unwrapQi:wrapped-balance-debit-differs", desc: desc(fmt.Sprintf("wrapped Qi of %s went down by %s, successful unwraps account for %s", c02Name(who), wgot, unwrapped[who]))})
 		}
 	}
+	if t.Via == "create" && (unwrapped[child].Sign() != 0 || st.GetState(c02Int(c02LK), c05WrappedKey(child)) != (common.Hash{})) {
+		out = append(out, c05Finding{key: "tx:unwrapQi:wrapped-balance-debit-differs", desc: desc("the created contract owns no wrapped Qi but an unwrap succeeded or its wrapped balance changed")})
+	}
 	// (3) lockup records: deleted iff a surviving successful claim
 	for _, o := range order {
-		if o.Kind != 'L' {
+		if o.Kind != 'L' || (t.Via == "create" && o.Owner == child) { // the child owns no lockup records
 			continue
 		}
 		_, h, _, _ := rawdb.ReadCoinbaseLockup(st.UnderlyingDatabase(), batch, o.Owner, c02M, 1, o.Epoch)
@@ -1224,47 +1296,50 @@ func c05RunTx(c *vx.Ctx, envs []*c02Env) {
 			for _, at := range []string{"stop", "revert"} {
 				bs := []string{""}
 				bt := []string{"stop"}
+				vias := []string{""}
 				if strings.IndexByte(as, 'B') >= 0 {
-					bs, bt = bSeqs, []string{"stop", "revert", "invalid"}
+					bs, bt, vias = bSeqs, []string{"stop", "revert", "invalid"}, c05Vias
 				}
-				for _, b := range bs {
-					for _, btm := range bt {
-						idx++
-						if !c.Mine(idx) {
-							continue
-						}
-						if c.Expired() {
-							p.Incomplete("deadline")
-							return
-						}
-						t := c05TxCase{Regime: rg.Name, A: as, ATerm: at, B: b, BTerm: btm}
-						fs := c05TxRun(envs, t)
-						p.Transitions++
-						p.Traces++
-						if len(as)+len(b) > int(p.MaxDepth) {
-							p.MaxDepth = int64(len(as) + len(b))
-						}
-						for _, f := range fs {
-							p.Outcome(c05Short(rg.Name) + "/" + f.outcome)
-							if f.key == "harness" {
-								c.HarnessError(f.desc)
+				for _, via := range vias {
+					for _, b := range bs {
+						for _, btm := range bt {
+							idx++
+							if !c.Mine(idx) {
+								continue
+							}
+							if c.Expired() {
+								p.Incomplete("deadline")
 								return
 							}
-							if f.key != "" && !reported[f.key] {
-								reported[f.key] = true
-								f := f
-								if c.Confirm(f.desc, func() string {
-									for _, g := range c05TxRun(envs, t) {
-										if g.key == f.key {
-											return g.key
-										}
-									}
-									return ""
-								}) {
-									c.Violate("tx", f.key, f.desc, t)
+							t := c05TxCase{Regime: rg.Name, A: as, ATerm: at, B: b, BTerm: btm, Via: via}
+							fs := c05TxRun(envs, t)
+							p.Transitions++
+							p.Traces++
+							if len(as)+len(b) > int(p.MaxDepth) {
+								p.MaxDepth = int64(len(as) + len(b))
+							}
+							for _, f := range fs {
+								p.Outcome(c05Short(rg.Name) + "/" + via + "/" + f.outcome)
+								if f.key == "harness" {
+									c.HarnessError(f.desc)
+									return
 								}
-							} else if len(as)+len(b) >= 3 {
-								p.Sample(t)
+								if f.key != "" && !reported[f.key] {
+									reported[f.key] = true
+									f := f
+									if c.Confirm(f.desc, func() string {
+										for _, g := range c05TxRun(envs, t) {
+											if g.key == f.key {
+												return g.key
+											}
+										}
+										return ""
+									}) {
+										c.Violate("tx", f.key, f.desc, t)
+									}
+								} else if len(as)+len(b) >= 3 {
+									p.Sample(t)
+								}
 							}
 						}
 					}
